@@ -12,8 +12,8 @@ pub enum Status { Exit(i32), Signal(i32), Timeout }
 pub struct Run { pub status: Status, pub stdout: Vec<u8>, pub stderr: String, pub wall_ms: u128 }
 impl Run {
     pub fn ok(&self) -> bool { self.status == Status::Exit(0) }
-    /// an ordinary refusal: tool error (255) or usage error (2)
-    pub fn refused(&self) -> bool { matches!(self.status, Status::Exit(255) | Status::Exit(2)) }
+    /// an ordinary refusal: any non-zero exit status other than Rust's panic status 101 (today: 255 tool error, 2 usage error)
+    pub fn refused(&self) -> bool { matches!(self.status, Status::Exit(c) if c != 0 && c != 101) }
     /// panic (101), signal, or hang
     pub fn crashed(&self) -> bool { !self.ok() && !self.refused() }
     pub fn out(&self) -> String { String::from_utf8_lossy(&self.stdout).into_owned() }
